@@ -62,6 +62,8 @@ def lean_type(t) -> str:
         return "PyT.Item"
     if t == "key":
         return "PyT.Key"
+    if t == "bytes":
+        return "Bytes"
     if t == "millis":  # a float known to hold a whole number of milliseconds, carried as that number (PyT.Millis)
         return "PyT.Millis"
     if isinstance(t, tuple) and t[0] == "raw":  # a parameter that stands for a third-party function (calendar, str.isalpha, …)
@@ -328,6 +330,10 @@ class Fn:
                 v = self.fresh()
                 pre.append(f"let {v} ← pyIndex (PyT.strIter {base}) {idx}")
                 return v, "str"
+            if bt == "bytes":
+                v = self.fresh()
+                pre.append(f"let {v} ← PyT.byteAt {base} {idx}")
+                return v, "int"
             raise Unsupported("subscript of " + str(bt))
         if isinstance(e, ast.Call):
             return self.call(e, env, pre)
@@ -404,8 +410,9 @@ class Fn:
             raise Unsupported(f"binary {op.__name__} on {at}, {bt}")
         if op in (ast.Add, ast.Sub, ast.Mult):
             return f"({a} {'+' if op is ast.Add else '-' if op is ast.Sub else '*'} {b})", "int"
-        if op in (ast.FloorDiv, ast.Mod, ast.Pow):
-            fn = {ast.FloorDiv: "PyT.floordiv", ast.Mod: "PyT.mod", ast.Pow: "PyT.pow"}[op]
+        if op in (ast.FloorDiv, ast.Mod, ast.Pow, ast.BitAnd, ast.BitOr, ast.LShift, ast.RShift):
+            fn = {ast.FloorDiv: "PyT.floordiv", ast.Mod: "PyT.mod", ast.Pow: "PyT.pow", ast.BitAnd: "PyT.bitAnd",
+                  ast.BitOr: "PyT.bitOr", ast.LShift: "PyT.shl", ast.RShift: "PyT.shr"}[op]
             v = self.fresh()
             pre.append(f"let {v} ← {fn} {a} {b}")
             return v, "int"
@@ -816,6 +823,14 @@ class Fn:
                 if node.func.id == "range" and len(node.args) == 1:
                     c, t = self.expr(node.args[0], env, pre)
                     return f"(PyT.range {c})", "int"
+                if node.func.id == "range" and len(node.args) in (2, 3):
+                    parts = [self.expr(a, env, pre) for a in node.args]
+                    if any(t != "int" for _, t in parts):
+                        raise Unsupported("range() of non-ints")
+                    step = parts[2][0] if len(parts) == 3 else "(1 : Int)"
+                    v = self.fresh()
+                    pre.append(f"let {v} ← PyT.range3 {parts[0][0]} {parts[1][0]} {step}")
+                    return v, "int"
             c, t = self.expr(node, env, pre)
             if t == "str":
                 return f"(PyT.strIter {c})", "str"
@@ -937,6 +952,8 @@ TARGETS = [
      "params": [("col_str", "str")], "ret": "int",
      "externs": {"col_parts.match": ("A1.colPartsMatch", ["str"], ("opt", ("match", 2)), False)},
      "assume": "col_parts.match is the hand-derived scanner A1.colPartsMatch"},
+    {"group": "A1", "module": "numbers_parser.tokenizer", "qualname": "parse_numbers_range.col_to_index", "lean": "col_to_index",
+     "params": [("col_str", "str")], "ret": "int"},
     {"group": "Items", "module": "numbers_parser.containers", "qualname": "ItemsList.__getitem__", "lean": "ItemsList.getitem",
      "params": [("items", ("list", "item")), ("key", "key")], "ret": "item",
      "attrs": {"self._items": ("items", ("list", "item")), "self._item_name": ("([] : Text)", "str")},
@@ -964,6 +981,12 @@ TARGETS = [
     {"group": "NumFmt", "module": "numbers_parser.cell", "qualname": "_twos_complement", "lean": "twos_complement",
      "params": [("value", "int"), ("base", "int")], "ret": "str",
      "assume": "bin/oct/hex(x)[2:] are the base-2/8/16 digits of x >= 0 (lower case), str.upper on them is ASCII upper-casing"},
+    # ---- C01: the integer part of the decimal128 reader ---------------------------------------------------------------
+    {"group": "Dec128", "module": "numbers_parser.cell", "qualname": "_unpack_decimal128", "lean": "unpack_decimal128",
+     "params": [("buffer", "bytes")], "ret": ("tuple", ["int", "int", "int"]), "module_consts": True,
+     "until": ("return float(f'{mantissa}E{exp}')", ["sign", "mantissa", "exp"]),
+     "assume": "everything before the final float(f'{mantissa}E{exp}') is translated (the correctly rounded decimal -> binary64 "
+               "conversion stays a parameter); & and | are translated for non-negative operands only"},
     # ---- C14: date directives with arithmetic of their own, the quote scanners, duration units --------------------------
     {"group": "DateFmt", "module": "numbers_parser.constants", "qualname": "_day_of_year", "lean": "day_of_year",
      "params": [("yday", "int")], "ret": "int",
@@ -1020,7 +1043,7 @@ def find_def(module: str, qualname: str) -> ast.FunctionDef:
     return node
 
 
-GROUP_IMPORTS = {"A1": ["NumbersModel.Model.A1"], "Items": [], "NumFmt": [], "Addr": [], "DateFmt": [], "Duration": []}
+GROUP_IMPORTS = {"A1": ["NumbersModel.Model.A1"], "Items": [], "NumFmt": [], "Addr": [], "DateFmt": [], "Duration": [], "Dec128": []}
 
 
 def generate(group: str) -> tuple[str, dict]:
